@@ -45,10 +45,17 @@ class Ctx:
     def fn(self):
         return short_fn(self.body.path)
 
-    def calls(self, *pats, arg_const=None):
+    def calls(self, *pats, arg_const=None, wrappers=False):
+        """call sites of the named functions; with wrappers=True also calls of crate-local helpers
+        that succeed only if their own call of a named function (on their parameters) succeeded — the
+        helper call stands for the inner call, its arguments mapped back to the caller's operands"""
         out = []
         for bb, t in self.body.calls():
             if not t.is_call_to(*pats):
+                if wrappers:
+                    vt = self._through_wrapper(t, pats)
+                    if vt is not None:
+                        out.append((bb, vt))
                 continue
             if arg_const:
                 ok = True
@@ -64,6 +71,22 @@ class Ctx:
                     continue
             out.append((bb, t))
         return out
+
+    def _through_wrapper(self, t, pats):
+        callee = t.resolved or t.callee
+        crate = self.body.path.split("::")[0].lstrip("<")
+        if not callee or not callee.startswith(crate + "::") or "{closure" in callee:
+            return None
+        for (target, argmap) in wrapper_summary(self.prog, callee, pats):
+            args = []
+            for m in argmap:
+                if m is None or m[0] >= len(t.args):
+                    args = None
+                    break
+                args.append(VOperand(t.args[m[0]], m[1]))
+            if args is not None:
+                return VTerm(t, target, args)
+        return None
 
     def const_str_of(self, op):
         """string literal an operand originates from (through refs/moves), else None"""
@@ -502,4 +525,72 @@ def guard_summary(prog, callee):
     finally:
         _SUMM_BUSY.discard(key)
     _SUMM[key] = out
+    return out
+
+
+class VTerm:
+    """a helper call standing for the call the helper makes on its parameters"""
+
+    def __init__(self, term, target, args):
+        self._t = term
+        self._target = target
+        self.args = args
+        self.via = term.resolved or term.callee
+
+    def __getattr__(self, name):
+        return getattr(self._t, name)
+
+    def is_call_to(self, *pats):
+        return any(path_match(self._target, p) for p in pats)
+
+    @property
+    def callee(self):
+        return self._target
+
+    @property
+    def resolved(self):
+        return self._target
+
+
+_WSUMM = {}
+_WBUSY = set()
+
+
+def wrapper_summary(prog, callee, pats):
+    """[(target path, [ (param index, fields) | None per target argument ])] such that `callee`
+    returns Ok only on the Ok edge of its call of target (sync helpers, one level)"""
+    key = (id(prog), callee, tuple(pats))
+    if key in _WSUMM:
+        return _WSUMM[key]
+    if key in _WBUSY:
+        return []
+    _WBUSY.add(key)
+    out = []
+    try:
+        ctx = ctx_of(prog, callee)
+        if ctx is not None and len(ctx.body.blocks) < 200 and ctx.body.kind != "Closure":
+            okb = ctx.ok_return_blocks()
+            for bb, t in ctx.body.calls():
+                if not t.is_call_to(*pats):
+                    continue
+                tr = ctx.tracker.track(t.dest.local)
+                pos = tr.pos_edges(0)
+                direct = 0 in tr.payloads.get(0, ()) or any(w == "return" for _, w in tr.escapes)
+                if okb:
+                    if not pos or ctx.cfg.witness_path(okb, pos) is not None:
+                        continue
+                elif not direct:
+                    continue
+                argmap = []
+                for a in t.args:
+                    og = ctx.origins.of_operand(a)
+                    if len(og) == 1 and next(iter(og)).kind == "param":
+                        o = next(iter(og))
+                        argmap.append((o.key[0] - 1, o.fields))
+                    else:
+                        argmap.append(None)
+                out.append((strip_generics(t.resolved or t.callee), argmap))
+    finally:
+        _WBUSY.discard(key)
+    _WSUMM[key] = out
     return out
